@@ -478,6 +478,13 @@ func cmdDriveNetIndex(args []string) error {
 	keep = append(keep, "/Ad^$match-case,important", "/ad^$match-case,important", "/AD^$match-case")
 	reqs = append(reqs, reqJSON{URL: "http://case.example/Ad", FrameURL: "", Cpt: "script"}, reqJSON{URL: "http://case.example/ad", FrameURL: "", Cpt: "script"},
 		reqJSON{URL: "http://case.example/AD", FrameURL: "http://case.example/", Cpt: "image"})
+	// a $domain list that mixes a plain name and a name under any public suffix (such a rule is not filed by domain at
+	// all), asked from a page only the wildcard covers
+	keep = append(keep, "/mx.$script,domain=mix.example|shop.*", "@@/mx.$image,domain=shop.*|other.example")
+	for _, src := range []string{"www.shop.com", "shop.co.uk", "mix.example", "shop.example.evil.test"} {
+		reqs = append(reqs, reqJSON{URL: "http://cdn.example/mx.js", FrameURL: "http://" + src + "/", Cpt: "script"},
+			reqJSON{URL: "http://cdn.example/mx.png", FrameURL: "http://" + src + "/", Cpt: "image"})
+	}
 	// three lists: plain; with a byte order mark and a title line; with CRLF line ends.  Where a rule sits in its
 	// list (and so its storage index) must not matter.
 	third := len(keep) / 3
